@@ -170,7 +170,7 @@ PALETTE = [
     ["npscalar", "np:1.5"], ["nparray", "np:[1.0, 2.0]"],
 ]
 PAL = dict((n, v) for n, v in PALETTE)
-SHORT_VALUES = ["int", "str", "liststr", "strlist"]          # value alphabet of the last op of longer sequences
+SHORT_VALUES = ["int", "str", "liststr", "strlist", "numstr-float"]          # value alphabet of the last op of longer sequences
 
 
 def value_of(name):
@@ -180,6 +180,9 @@ def value_of(name):
         return np.array(lit) if isinstance(lit, list) else np.float64(lit)
     if isinstance(v, (int, float)) and not isinstance(v, bool):
         return v + _s()
+    if name in ("numstr-int", "numstr-float"):
+        # the same number as the "int" value, written as text with / without a decimal point (equal, other class)
+        return f"{5 + _s()}" + (".0" if name == "numstr-float" else "")
     return copy.deepcopy(v)
 
 
@@ -230,6 +233,26 @@ def same(a, b):
         return bool(a == b)
     except Exception:  # noqa: BLE001
         return False
+
+
+def numclass(x):
+    if isinstance(x, (bool, np.bool_)):
+        return "bool"
+    if isinstance(x, (int, np.integer)):
+        return "int"
+    if isinstance(x, (float, np.floating)):
+        return "float"
+    return "-"
+
+
+def same_typed(a, b):
+    """`same`, and numbers additionally of the same class (5 is not 5.0): used for model arguments, which are handed to
+    the model exactly as assigned (detector fields may legitimately normalise the number class)"""
+    if not same(a, b):
+        return False
+    if kind_of(a) == "seq":
+        return all(same_typed(x, y) for x, y in zip(a, b))
+    return numclass(a) == numclass(b)
 
 
 def show(x):
@@ -479,9 +502,11 @@ class Walker:
                     except Exception as e:  # noqa: BLE001
                         self.bad(hist, op, "get-after-set-raised", f"get({k!r}) after set raised {type(e).__name__}")
                     else:
-                        if not same(got, want):
-                            self.bad(hist, op, "wrong-value", f"set({k!r}, {show(v)}) then get returned {show(got)}; the "
-                                     f"value denotes {show(want)}")
+                        if not (same_typed if ".arguments." in k else same)(got, want):
+                            self.bad(hist, op, "wrong-value", f"set({k!r}, {show(v)}) then get returned {show(got)}"
+                                     f"{' (' + type(got).__name__ + ')' if kind_of(got) == 'num' else ''}; the "
+                                     f"value denotes {show(want)}"
+                                     f"{' (' + type(want).__name__ + ')' if kind_of(want) == 'num' else ''}")
                     new_ref[k] = copy.deepcopy(want)
                 else:
                     # refused by a validating setter: whatever the setting holds now is the reference from here on
